@@ -167,7 +167,7 @@ def twin_autograd_mtl(run: MtlRun) -> list[str]:
     .backward(): when autograd hands one gradient tensor to two leaves, torch's own AccumulateGrad
     may let their .grad alias, which would corrupt the twin's later accumulations.)"""
     scn = run.scn
-    B = Built(scn["prog"], dtype=run.dtype, shapes=run.built.shapes)
+    B = Built(scn["prog"], dtype=run.dtype, shapes=run.built.shapes, real=run.built.real)
     w = [float(v) for v in scn["w"]]
     feats = [B.node(f) for f in run.feats]
     cts = [torch.zeros_like(f) for f in feats]
